@@ -10,7 +10,7 @@
 // observations; the TLA+ specification VectorTrace judges them.
 //
 //   drv_vector --out F --mode exh1 --len L [--types int,double] [--kall 0|1]
-//   drv_vector --out F --mode exh2 --len L [--types ..] [--slice i --of n] [--setlike 0|1]
+//   drv_vector --out F --mode exh2 --len L [--types ..] [--slice i --of n] [--setlike 0|1] [--vals3 0|1]
 //   drv_vector --out F --mode seq                    seq(from,to,by) over -6..6 x 1..4
 //   drv_vector --out F --mode random --n N           random histories (length <= 64, -50..50, ties)
 //   drv_vector --out F --mode log --n N              log-domain reductions (pool with -inf, +-1e300, +inf)
@@ -476,9 +476,9 @@ template<class T> struct Runner
     }
   }
 
-  void exh2(size_t maxLen, long slice, long of, bool setlikeOnly)
+  void exh2(size_t maxLen, long slice, long of, bool setlikeOnly, bool vals3)
   {
-    const std::vector<long> vals = {-1, 0, 1, 2};
+    const std::vector<long> vals = vals3 ? std::vector<long>{-1, 0, 2} : std::vector<long>{-1, 0, 1, 2};
     static const char* pure[] = {"Add", "Sub", "Mul", "Div", "Scalar", "Kron", "Extract", "CovB", "CovO", "CorO", "CosO", "NormWO", "MiO"};
     static const char* pureSet[] = {"SumProd", "Union", "Inter", "SameC"};
     static const char* mut[] = {"AddEq", "SubEq", "MulEq", "DivEq", "Append", "Prepend"};
@@ -776,6 +776,7 @@ int main(int argc, char** argv)
   long kall = argInt(argc, argv, "--kall", 1);
   long slice = argInt(argc, argv, "--slice", 0), of = argInt(argc, argv, "--of", 1);
   long setlike = argInt(argc, argv, "--setlike", 0);
+  long vals3 = argInt(argc, argv, "--vals3", 0);
   {
     std::stringstream ss(argStr(argc, argv, "--skip", ""));
     std::string t;
@@ -807,7 +808,7 @@ int main(int argc, char** argv)
     Runner<double> rd("double");
     Rng r1(seed * 1000003ULL + 1), r2(seed * 1000003ULL + 2);
     if (mode == "exh1") { if (ti) ri.exh1(static_cast<size_t>(len), kall != 0); if (td) rd.exh1(static_cast<size_t>(len), kall != 0); }
-    else if (mode == "exh2") { if (ti) ri.exh2(static_cast<size_t>(len), slice, of, setlike != 0); if (td) rd.exh2(static_cast<size_t>(len), slice, of, setlike != 0); }
+    else if (mode == "exh2") { if (ti) ri.exh2(static_cast<size_t>(len), slice, of, setlike != 0, vals3 != 0); if (td) rd.exh2(static_cast<size_t>(len), slice, of, setlike != 0, vals3 != 0); }
     else if (mode == "seq") { if (ti) ri.seqs(); if (td) rd.seqs(); }
     else if (mode == "random") { if (ti) ri.random(r1, n); if (td) rd.random(r2, n); }
     else
